@@ -157,6 +157,13 @@ def run(ctx):
             if ctx.mine(i * 2 + size) or not ctx.quick:
                 ctx.count("wl.path_families")
                 check_case(ctx, {"conf": conf, "src": F.build(fam, size)}, minimize=False)
+    from vf import limits
+    for i, (name, src) in enumerate(limits.docs(big=True)):
+        if ctx.mine(i):
+            ctx.count("wl.limits")
+            check_case(ctx, {"conf": {"preset": "js-default"}, "src": src}, minimize=False)
+            if len(src) < 100000:
+                check_case(ctx, {"conf": {"preset": "commonmark", "options": {"html": False}, "enable": ["table", "strikethrough"]}, "src": src}, minimize=False)
     for kind, conf, src in W.documents(ctx, n, conf_sampler=sampler, doc_gen=doc_gen,
                                        lines_confs=[{"preset": "js-default"}, {"preset": "commonmark", "options": {"html": False}, "enable": ["table"]}]):
         W.conf_counts(ctx, conf)
